@@ -15,14 +15,25 @@
 (*   StoreFirst = TRUE      the timestamp is stored before it is compared    *)
 (*   CountReject = FALSE    a rejection is not counted                       *)
 (*   ReturnOnReject = FALSE a rejected point is forwarded anyway             *)
+(*   SharedRegister = TRUE  "shared_register_on_collision": two different    *)
+(*                          keys are mapped to one register (the map is      *)
+(*                          indexed by a hash of the key that is too short:  *)
+(*                          colliding names share the last-accepted slot)    *)
+(* The registers of different keys are independent (Independent): projected  *)
+(* to the calls of one key, the decisions are those of one fresh sequential  *)
+(* max-register.  This is what allows OrderedTrace.tla to judge a run key by *)
+(* key, and a run over very many names by a projection to some of them.      *)
 EXTENDS Integers, Sequences, FiniteSets, TLC
 
 CONSTANTS Keys, MaxTs, NCallers, MaxCalls,
-          CmpStrict, WriteInLock, StoreFirst, CountReject, ReturnOnReject
+          CmpStrict, WriteInLock, StoreFirst, CountReject, ReturnOnReject,
+          SharedRegister
 
 Callers == 1..NCallers
 Names == Keys \X {0, 1}          \* <<key, 1>> is the name with a leading dot
 KeyOfName(n) == n[1]
+\* the register that holds the last accepted timestamp of key k
+RegOf(k) == IF SharedRegister THEN CHOOSE r \in Keys : \A x \in Keys : r <= x ELSE k
 
 VARIABLES last, pc, arg, acc, ncalls, dec, ooo, badrec, fwd
 vars == <<last, pc, arg, acc, ncalls, dec, ooo, badrec, fwd>>
@@ -47,11 +58,12 @@ Newer(ts, old) == IF CmpStrict THEN ts > old ELSE ts >= old
 Decide(c) ==
   /\ pc[c] = "called"
   /\ LET k == KeyOfName(arg[c].n) ts == arg[c].ts
-         a == Newer(ts, last[k]) IN
+         r == RegOf(k)
+         a == Newer(ts, last[r]) IN
      /\ acc' = [acc EXCEPT ![c] = a]
      /\ dec' = Append(dec, [k |-> k, ts |-> ts, acc |-> a])
-     /\ IF StoreFirst THEN last' = [last EXCEPT ![k] = ts] /\ pc' = [pc EXCEPT ![c] = "decided"]
-        ELSE IF WriteInLock THEN /\ last' = [last EXCEPT ![k] = IF a THEN ts ELSE @]
+     /\ IF StoreFirst THEN last' = [last EXCEPT ![r] = ts] /\ pc' = [pc EXCEPT ![c] = "decided"]
+        ELSE IF WriteInLock THEN /\ last' = [last EXCEPT ![r] = IF a THEN ts ELSE @]
                                  /\ pc' = [pc EXCEPT ![c] = "decided"]
         ELSE /\ UNCHANGED last /\ pc' = [pc EXCEPT ![c] = IF a THEN "write" ELSE "decided"]
   /\ UNCHANGED <<arg, ncalls, ooo, badrec, fwd>>
@@ -59,7 +71,7 @@ Decide(c) ==
 \* deviation WriteInLock = FALSE: the store is a separate step
 LateWrite(c) ==
   /\ pc[c] = "write"
-  /\ last' = [last EXCEPT ![KeyOfName(arg[c].n)] = arg[c].ts]
+  /\ last' = [last EXCEPT ![RegOf(KeyOfName(arg[c].n))] = arg[c].ts]
   /\ pc' = [pc EXCEPT ![c] = "decided"]
   /\ UNCHANGED <<arg, acc, ncalls, dec, ooo, badrec, fwd>>
 
@@ -86,6 +98,12 @@ Mono == \A k \in Keys : \A i, j \in 1..Len(AccOf(k)) : i < j => AccOf(k)[i].ts <
 NoFalseReject ==
   \A i \in 1..Len(dec) :
     (dec[i].ts > 0 /\ \A j \in 1..(i - 1) : dec[j].k = dec[i].k => dec[j].ts < dec[i].ts) => dec[i].acc
+\* names are independent: the decisions on one key are those of one sequential max-register that starts at 0
+\* and sees only the calls of that key
+RECURSIVE Replay(_, _)
+Replay(s, reg) == IF s = <<>> THEN TRUE
+                  ELSE LET d == Head(s) a == d.ts > reg IN d.acc = a /\ Replay(Tail(s), IF a THEN d.ts ELSE reg)
+Independent == \A k \in Keys : Replay(SelectSeq(dec, LAMBDA d : d.k = k), 0)
 \* forwarded only if strictly newer than everything accepted before
 OnlyNewer ==
   \A i \in 1..Len(dec) : dec[i].acc =>
